@@ -32,6 +32,7 @@ import (
 )
 
 type cfg struct {
+	compete    bool
 	rec        *ev.Rec
 	prop       string
 	invalidPct int
@@ -141,7 +142,7 @@ func runCase(t *rapid.T, c cfg) *result {
 	}
 	defer G.Remove()
 	w0 := &vnode.World{NUsers: opts.NUsers, NBPs: opts.NBPs, Public: opts.Public, DPoS: opts.Consensus == "dpos"}
-	tr := vnode.GenTree(t, G, w0, vnode.TreeOpts{MinBlocks: c.minBlocks, MaxBlocks: c.maxBlocks, MaxTx: c.maxTx, InvalidPct: c.invalidPct, Forged: c.forged})
+	tr := vnode.GenTree(t, G, w0, vnode.TreeOpts{MinBlocks: c.minBlocks, MaxBlocks: c.maxBlocks, MaxTx: c.maxTx, InvalidPct: c.invalidPct, Forged: c.forged, Compete: c.compete && rapid.IntRange(0, 3).Draw(t, "competeMode") > 0})
 	sched := vnode.DrawSchedule(t, tr)
 	nsched := len(sched)
 	for i := range tr.Blocks { // final pass: everything once more, parents first
@@ -589,7 +590,7 @@ func TestC05Arrivals(t *testing.T) {
 	rec := ev.New("C05", "arrivals")
 	defer rec.Flush()
 	rapid.Check(t, func(t *rapid.T) {
-		record(rec, runCase(t, cfg{rec: rec, prop: "C05", invalidPct: 12, forged: false, minBlocks: 2, maxBlocks: 9, maxTx: 4}))
+		record(rec, runCase(t, cfg{rec: rec, compete: true, prop: "C05", invalidPct: 12, forged: false, minBlocks: 2, maxBlocks: 9, maxTx: 4}))
 	})
 }
 
@@ -597,7 +598,7 @@ func TestC07ForkChoice(t *testing.T) {
 	rec := ev.New("C07", "forkchoice")
 	defer rec.Flush()
 	rapid.Check(t, func(t *rapid.T) {
-		record(rec, runCase(t, cfg{rec: rec, prop: "C07", invalidPct: 10, forged: false, minBlocks: 3, maxBlocks: 10, maxTx: 4}))
+		record(rec, runCase(t, cfg{rec: rec, compete: true, prop: "C07", invalidPct: 10, forged: false, minBlocks: 3, maxBlocks: 10, maxTx: 4}))
 	})
 }
 
